@@ -1288,6 +1288,26 @@ struct Exec {
         std::string s1 = c1 ? c1 : "";
         if (s1.find("nan") != std::string::npos || s1.find("inf") != std::string::npos)
             viol("C18", "cmn_finite", "text", "channel-normalisation state is not finite: " + s1, opi);
+        // the exported text is the state in force: the means the feature module subtracts right now (public struct), to the
+        // six digits the text carries - at any instant, also inside an utterance after the live window has shifted
+        {
+            cmn_t *cs = fcb->cmn_struct;
+            const char *p = s1.c_str();
+            out.checks++;
+            for (int i = 0; cs && i < cs->veclen; ++i) {
+                char *e;
+                double x = strtod(p, &e);
+                if (e == p)
+                    break;
+                double m = (double)cs->cmn_mean[i];
+                if (std::isfinite(m) && !(std::fabs(x - m) <= 2e-3 + 2e-5 * std::fabs(m))) {
+                    viol("C18", "cmn_text_is_state", s.in_utt ? "inside_utterance" : "between_utterances", "exported CMN value " + std::to_string(i) + " reads " + std::to_string(x) +
+                             " while the mean in force is " + std::to_string(m), opi);
+                    break;
+                }
+                p = *e == ',' ? e + 1 : e;
+            }
+        }
         if (!s.in_utt) {
             decoder_set_cmn(s.d, s1.c_str());
             const char *c2 = decoder_get_cmn(s.d, 0);
